@@ -7,9 +7,9 @@ Effects:  open-w / open-a (audit `open` with a writing mode: create or truncate)
 reaches the disk: writes are held back by a proxy until close so that a torn write can be produced deterministically),
 rename (os.rename / os.replace / shutil.move on one file system), remove, mkdir, rmdir, truncate, chmod, symlink, link.
 
-VT_INJECT_MODE: record | crash | crash-half | crash-full | error
+VT_INJECT_MODE: record | crash | crash-part | crash-full | error
    crash       exit(137) immediately BEFORE effect k takes place (for close-*: nothing of the pending content is written)
-   crash-half  only for close-*: half of the pending content is written, then exit(137)
+   crash-part  only for close-*: the first VT_INJECT_FRAC (0..1) of the pending content is written, then exit(137)
    crash-full  only for close-*: all pending content is written, then exit(137) (= crash right after the effect)
    error       effect k raises OSError(EIO) and does not take place; the process continues
 """
@@ -112,8 +112,9 @@ if _LOG:
             if act == 'error':
                 self._f.close()
                 raise OSError(errno.EIO, 'injected I/O error while writing', self._rel)
-            if act == 'crash-half':
-                self._f.write(data[:len(data) // 2])
+            if act and act.startswith('crash-part'):
+                frac = float(os.environ.get('VT_INJECT_FRAC', '0.5'))
+                self._f.write(data[:max(0, min(len(data) - 1, int(len(data) * frac)))])
                 self._f.flush()
                 os._exit(137)
             self._f.write(data)
